@@ -32,6 +32,7 @@ type c21Model struct {
 	MetaState  string `json:"meta_trace_id"`                  // absent, nonempty, empty, nonstring
 	ParentHeld bool   `json:"parent_id_held"`
 	IsLog      bool   `json:"is_log"`
+	Annotation string `json:"annotation_type,omitempty"` // meta.annotation_type when it is span_event/link: NOT an input of the root rule
 }
 
 func c21IsNonEmptyStr(v E3Val) bool { return v.Kind == KStr && v.Str != "" }
@@ -74,6 +75,9 @@ func c21ModelOf(fields []E3KV, traceNames, parentNames []string) c21Model {
 	if v, ok := get("meta.signal_type"); ok && v.Kind == KStr && v.Str == "log" {
 		m.IsLog = true
 	}
+	if v, ok := get("meta.annotation_type"); ok && v.Kind == KStr && (v.Str == "span_event" || v.Str == "link") {
+		m.Annotation = v.Str
+	}
 	m.IsRoot = m.InTrace && !m.ParentHeld && !m.IsLog
 	return m
 }
@@ -97,6 +101,8 @@ func (m c21Model) rootClass() string {
 		return "log-record"
 	case m.ParentHeld:
 		return "parent-id-held"
+	case m.Annotation != "":
+		return "no-parent-id-annotation-" + m.Annotation
 	default:
 		return "no-parent-id"
 	}
@@ -250,7 +256,26 @@ func c21Event(rng *verifkit.Rand, id string, traceNames, parentNames []string, m
 	for i, n := 0, rng.Intn(4); i < n; i++ {
 		kvs = append(kvs, KV(fmt.Sprintf("f%d", i), verifkit.Pick(rng, VStr("v"+rng.Hex(3)), VInt(int64(rng.Intn(50))), VBool(true), VF64(1.25))))
 	}
+	if rng.Chance(0.3) {
+		// span events and links are still roots when they have a trace ID and no parent ID
+		kvs = append(kvs, KV("meta.annotation_type", verifkit.Pick(rng, VStr("span_event"), VStr("link"), VStr("span_event"), VStr("link"), VStr("span"), VStr(""), VInt(2))))
+	}
 	kvs = append(kvs, KV("verif.id", VStr(id)))
+	if msgpack {
+		// non-minimal but legal msgpack string headers (str8/16/32) for keys and values of
+		// the fields that decide identity; the model never looks at the width
+		for i := range kvs {
+			if kvs[i].Key == "verif.id" || strings.HasPrefix(kvs[i].Key, "f") && len(kvs[i].Key) == 2 {
+				continue
+			}
+			if rng.Chance(0.3) {
+				kvs[i].KeyWidth = verifkit.Pick(rng, 8, 16, 32)
+			}
+			if kvs[i].Val.Kind == KStr && rng.Chance(0.4) {
+				kvs[i].Val.Width = verifkit.Pick(rng, 8, 16, 32)
+			}
+		}
+	}
 	verifkit.Shuffle(rng, kvs)
 	return kvs
 }
@@ -261,6 +286,8 @@ type c21Observed struct {
 	TraceID string `json:"trace_id"`
 	IsRoot  bool   `json:"is_root"`
 	Where   string `json:"where"`
+	// meta.refinery.root of the payload handed over with the span (absent = false)
+	RootField bool `json:"payload_meta_refinery_root"`
 }
 
 func c21Observe(obs []E3Obs) (c21Observed, string) {
@@ -270,7 +297,8 @@ func c21Observe(obs []E3Obs) (c21Observed, string) {
 	o := obs[0]
 	switch o.Where {
 	case E3AtAddSpan, E3AtAddSpanFromPeer:
-		return c21Observed{Seen: true, InTrace: true, TraceID: o.Ev.TraceID, IsRoot: o.Ev.IsRoot, Where: o.Where}, ""
+		rf, _ := o.Ev.Fields["meta.refinery.root"].(bool)
+		return c21Observed{Seen: true, InTrace: true, TraceID: o.Ev.TraceID, IsRoot: o.Ev.IsRoot, Where: o.Where, RootField: rf}, ""
 	case E3AtUpstreamEvent:
 		return c21Observed{Seen: true, Where: o.Where}, ""
 	}
@@ -285,6 +313,12 @@ func c21Judge(run *verifkit.Run, enc string, m c21Model, got c21Observed, rep in
 		x["model"], x["observed"], x["repetition"], x["encoding"] = m, got, rep, enc
 		_ = what
 		return x
+	}
+	if got.InTrace && got.IsRoot != got.RootField {
+		// the two views of root status Refinery itself hands on must agree
+		run.Violation("C21/"+site+"/root/"+m.rootClass()+"/span-flag-differs-from-meta.refinery.root",
+			fmt.Sprintf("%s: Span.IsRoot=%v but the payload's meta.refinery.root=%v", enc, got.IsRoot, got.RootField), w(""))
+		bad = true
 	}
 	switch {
 	case m.InTrace && !got.InTrace:
@@ -309,13 +343,13 @@ func c21Judge(run *verifkit.Run, enc string, m c21Model, got c21Observed, rep in
 			fmt.Sprintf("%s: IsRoot=%v, want %v (%s)", enc, got.IsRoot, m.IsRoot, m.rootClass()), w(""))
 		return true
 	}
-	return false
+	return bad
 }
 
 func TestVerif_C21(t *testing.T) {
 	run := verifkit.Start(t, "C21", "route")
 	defer run.Finish()
-	run.Rule("per case: PRNG-chosen TraceNames/ParentNames lists (1-4 / 0-3 names from small pools that include meta.-prefixed names which are not Refinery's own metadata names, random order) and an event whose payload carries a random subset of configured and unconfigured ID-ish fields, meta.trace_id, meta.signal_type and filler fields in random payload order with values typed {non-empty string, empty string, int, float, bool, nil, array, map}; while the destination's sampler is deterministic, dynamic (FieldList) or rules-based (conditions) over PRNG-chosen fields that include configured ID fields; sent 8x identically through each of /1/events JSON+msgpack and /1/batch JSON+msgpack on the incoming or peer listener (plus OTLP traces/logs over HTTP and gRPC with attributes named like configured ID fields); non-trivial = event holds >=2 distinct non-empty configured trace-ID strings, or meta.trace_id together with an ID field, or a parent ID, or is a log; distinct = (encoding, id class, root class, relative payload order of the held ID fields vs configured order)")
+	run.Rule("per case: PRNG-chosen TraceNames/ParentNames lists (1-4 / 0-3 names from small pools that include meta.-prefixed names which are not Refinery's own metadata names, random order) and an event whose payload carries a random subset of configured and unconfigured ID-ish fields, meta.trace_id, meta.signal_type, meta.annotation_type (span_event/link/other) and filler fields in random payload order, on msgpack with non-minimal str8/16/32 headers on keys and string values of those fields, with values typed {non-empty string, empty string, int, float, bool, nil, array, map}; while the destination's sampler is deterministic, dynamic (FieldList) or rules-based (conditions) over PRNG-chosen fields that include configured ID fields; sent 8x identically through each of /1/events JSON+msgpack and /1/batch JSON+msgpack on the incoming or peer listener (plus OTLP traces/logs over HTTP and gRPC with attributes named like configured ID fields); non-trivial = event holds >=2 distinct non-empty configured trace-ID strings, or meta.trace_id together with an ID field, or a parent ID, or is a log; distinct = (encoding, id class, root class, relative payload order of the held ID fields vs configured order)")
 	run.Assume("the recording collector/transmission snapshots are taken synchronously inside the handler; Span.TraceID/IsRoot handed to Collector.AddSpan* is the router's final answer")
 	run.Assume("for OTLP the event's field set is read back from the payload handed to the collector (husky decides it), the statement is then applied to that field set")
 
@@ -420,7 +454,7 @@ func TestVerif_C21(t *testing.T) {
 				run.Count("events_with_varying_identity_across_identical_requests", 1)
 			}
 			m := e.model
-			if m.IDFields >= 2 || (m.MetaState != "absent" && m.IDFields >= 1) || m.ParentHeld || m.IsLog {
+			if m.IDFields >= 2 || (m.MetaState != "absent" && m.IDFields >= 1) || m.ParentHeld || m.IsLog || m.Annotation != "" {
 				// relative order of held configured fields in the payload vs configured order
 				var held []string
 				for _, kv := range e.kvs {
